@@ -7,6 +7,7 @@ import (
 	"crypto/sha256"
 	"encoding/json"
 	"fmt"
+	"go/types"
 	"os"
 	"os/exec"
 	"path/filepath"
@@ -506,9 +507,9 @@ type KnownFinding struct {
 	ID       string `json:"id"`
 	Kind     string `json:"kind"` // "known" | "fixed"
 	// match
-	Job      string `json:"job,omitempty"`      // prefix of the job name ("" = any)
-	Status   string `json:"status,omitempty"`   // panic | assert-fail | budget
-	Site     string `json:"site,omitempty"`     // substring of the engine site (function@file:line)
+	Job      string `json:"job,omitempty"`    // prefix of the job name ("" = any)
+	Status   string `json:"status,omitempty"` // panic | assert-fail | budget
+	Site     string `json:"site,omitempty"`   // substring of the engine site (function@file:line)
 	AssertID string `json:"assert_id,omitempty"`
 	MsgHas   string `json:"msg_has,omitempty"`
 	What     string `json:"what"`
@@ -864,4 +865,69 @@ func SelfTest() int {
 		return 2
 	}
 	return 0
+}
+
+// StaticNondeterminismScan lists sources of nondeterminism in the repository's packages (from SSA).
+func StaticNondeterminismScan(c *Ctx) map[string]interface{} {
+	var ranges, calls, convs []string
+	seen := map[*ssa.Function]bool{}
+	var visit func(f *ssa.Function)
+	visit = func(f *ssa.Function) {
+		if f == nil || seen[f] || f.Blocks == nil {
+			return
+		}
+		seen[f] = true
+		for _, b := range f.Blocks {
+			for _, ins := range b.Instrs {
+				pos := c.L.Fset.Position(ins.Pos())
+				where := fmt.Sprintf("%s:%d %s", strings.TrimPrefix(pos.Filename, RepoDir+"/"), pos.Line, f.String())
+				switch ins := ins.(type) {
+				case *ssa.Range:
+					if _, isMap := ins.X.Type().Underlying().(*types.Map); isMap {
+						ranges = append(ranges, where)
+					}
+				case *ssa.Call:
+					if callee := ins.Call.StaticCallee(); callee != nil && callee.Pkg != nil {
+						n := callee.String()
+						if strings.HasPrefix(n, "time.Now") || strings.HasPrefix(n, "math/rand.") || n == "os.Getenv" || n == "os.Environ" || strings.HasPrefix(n, "time.Since") {
+							calls = append(calls, where+" -> "+n)
+						}
+					}
+				case *ssa.Convert:
+					if _, isP := ins.X.Type().Underlying().(*types.Pointer); isP {
+						if b, ok := ins.Type().Underlying().(*types.Basic); ok && (b.Kind() == types.Uintptr || b.Kind() == types.UnsafePointer) {
+							convs = append(convs, where)
+						}
+					}
+				}
+			}
+		}
+		for _, a := range f.AnonFuncs {
+			visit(a)
+		}
+	}
+	for path, p := range c.L.Pkgs {
+		if !strings.HasPrefix(path, symgo.RepoModule) || strings.Contains(path, "/internal/") {
+			continue
+		}
+		for _, m := range p.Members {
+			switch m := m.(type) {
+			case *ssa.Function:
+				if !strings.Contains(m.Name(), "vRegister") && !strings.HasPrefix(m.Name(), "H") && !strings.HasPrefix(m.Name(), "v") {
+					visit(m)
+				}
+			case *ssa.Type:
+				for _, t := range []types.Type{m.Type(), types.NewPointer(m.Type())} {
+					ms := c.L.World.Prog.MethodSets.MethodSet(t)
+					for i := 0; i < ms.Len(); i++ {
+						visit(c.L.World.Prog.MethodValue(ms.At(i)))
+					}
+				}
+			}
+		}
+	}
+	sort.Strings(ranges)
+	sort.Strings(calls)
+	sort.Strings(convs)
+	return map[string]interface{}{"range_over_map": ranges, "time_rand_env_calls": calls, "pointer_to_integer_conversions": convs}
 }
